@@ -17,7 +17,7 @@ def shared_mutations(path_events):
             o = ev.data.get('obj')
             if any(f.name == '<classbody>' for f in ev.stack):
                 continue      # construction of the class-level object itself
-            if isinstance(o, (ADict, AList, AObj)) and getattr(o, 'shared', None):
+            if getattr(o, 'shared', None):
                 out.append((o.shared, ev))
             if isinstance(o, ADict) and o.name == 'default{}':
                 out.append(('mutable default argument', ev))
